@@ -226,7 +226,14 @@ def run_many(scens, tag, jobs=10, hook=True, keep=False):
 def _run_many(scens, tag, jobs=10, hook=True, keep=False):
     if budget_factor.value is None and not tag.startswith('calibrate_'):
         budget_factor.measure()          # here, single-threaded, not from the worker threads below
-    base = os.path.join(WORK, 'runs', tag)
+    # one scratch directory per (tag, process): the quick and the thorough command of one property may run at the same time
+    runs = os.path.join(WORK, 'runs')
+    os.makedirs(runs, exist_ok=True)
+    for name in os.listdir(runs):          # leftovers of processes that are gone
+        stem, _, pid = name.rpartition('.')
+        if (pid.isdigit() and stem and not os.path.exists('/proc/' + pid)) or name == tag:
+            shutil.rmtree(os.path.join(runs, name), ignore_errors=True)
+    base = os.path.join(runs, f'{tag}.{os.getpid()}')
     shutil.rmtree(base, ignore_errors=True)
     os.makedirs(base, exist_ok=True)
     recs = [None] * len(scens)
@@ -254,7 +261,7 @@ def calibrate(start_methods=('fork', 'threading', 'forkserver', 'spawn')):
     scens = [{'id': 'cal_' + sm, 'pool': {'n_jobs': 2, 'start_method': sm}, 'budget': 120,
               'calls': [{'kind': 'map', 'n': 4, 'input': 'list', 'elem': 'scalar', 'params': {}, 'base': 0}]} for sm in start_methods]
     recs = run_many(scens, 'calibrate_%d' % os.getpid(), jobs=len(scens))
-    shutil.rmtree(os.path.join(WORK, 'runs', 'calibrate_%d' % os.getpid()), ignore_errors=True)
+    shutil.rmtree(os.path.join(WORK, 'runs', 'calibrate_%d.%d' % (os.getpid(), os.getpid())), ignore_errors=True)
     out = {}
     for sm, r in zip(start_methods, recs):
         try:
